@@ -81,13 +81,45 @@ theorem goodOpd_group (g : Bool) (lead : Nat) (occ : Option Occur) (o : Opd) (mo
     simp only [groupOpd, printList, List.length_cons, List.length_append, List.length_nil] at h2 ⊢
     omega
 
-/-- the well-formed fragment: plain words, double-quoted phrases without escapes, either of them with a field prefix `name:`, and parenthesised lists of well-formed operands with
+/-- `NOT x` of a good operand is a good operand -/
+theorem goodOpd_not (g : Bool) (k : Nat) (o : Opd) (ho : GoodOpd g o) : GoodOpd g (notOpd k o) := by
+  refine ⟨⟨'N', 'O' :: 'T' :: ' ' :: (spaces k ++ o.text), rfl, by decide, by decide, by decide, by decide, by decide⟩,
+    ?_, ?_, ?_⟩
+  · intro t _
+    simp [notOpd, binaryOperand, tag, List.isPrefixOf]
+  · intro t ht f hf
+    simp only [notOpd] at hf
+    obtain ⟨f', rfl⟩ : ∃ f', f = f' + 1 := ⟨f - 1, by omega⟩
+    have hp := ho.parse t ht f' (by omega)
+    obtain ⟨c, r, hcr, hsp, _⟩ := ho.head
+    have hsk : skip0 (' ' :: (spaces k ++ (o.text ++ t))) = o.text ++ t := by
+      have := skip0_spaces (k + 1) (o.text ++ t) (by
+        intro c' r' h'
+        rw [hcr] at h'
+        simp only [List.cons_append, List.cons.injEq] at h'
+        rw [← h'.1]; exact hsp)
+      simpa [spaces, List.replicate_succ] using this
+    have htext : (notOpd k o).text ++ t = 'N' :: 'O' :: 'T' :: ' ' :: (spaces k ++ (o.text ++ t)) := by
+      simp [notOpd]
+    have hs1 := skip1_space (spaces k ++ (o.text ++ t))
+    rw [hsk] at hs1
+    rw [htext]
+    generalize o.text ++ t = X at hp hs1
+    generalize spaces k ++ X = Y at hs1
+    unfold pLeaf
+    simp [R.orElse, tag, List.isPrefixOf, hs1, hp, R.map, notOpd]
+  · have := ho.small
+    simp only [notOpd, List.length_cons, List.length_append]
+    omega
+
+/-- the well-formed fragment: plain words, double-quoted phrases without escapes, either of them with a field prefix `name:`, `NOT x` of a well-formed operand, and parenthesised lists of well-formed operands with
     markers, AND/OR and any layout -/
 inductive WFOpd : Opd → Prop where
   | word (w : Str) (hw : PlainWord w) : WFOpd (wordOpd w)
   | phrase (body : Str) (hb : PhraseBody body) : WFOpd (phraseOpd body)
   | fieldWord (f w : Str) (hf : PlainWord f) (hw : PlainWord w) : WFOpd (fieldWordOpd f w)
   | fieldPhrase (f body : Str) (hf : PlainWord f) (hb : PhraseBody body) : WFOpd (fieldPhraseOpd f body)
+  | not (k : Nat) (o : Opd) (ho : WFOpd o) : WFOpd (notOpd k o)
   | group (lead : Nat) (occ : Option Occur) (o : Opd) (more : List PItem) (k : Nat)
       (ho : WFOpd o) (hm : ∀ it ∈ more, WFOpd it.opd) : WFOpd (groupOpd lead occ o more k)
 
@@ -97,6 +129,7 @@ theorem wf_good (g : Bool) (o : Opd) (h : WFOpd o) : GoodOpd g o := by
   | phrase body hb => exact goodOpd_phrase g body hb
   | fieldWord f w hf hw => exact goodOpd_fieldWord g f w hf hw
   | fieldPhrase f body hf hb => exact goodOpd_fieldPhrase g f body hf hb
+  | not k o _ ih => exact goodOpd_not g k o ih
   | group lead occ o more k _ _ iho ihm => exact goodOpd_group g lead occ o more k iho ihm
 
 /-- the whole strict parser on a printed operand list of well-formed operands -/
